@@ -65,7 +65,9 @@ fn decode(fw: &FactoryWorld, chunk: &[u64]) -> Vec<RegOp> {
             if regs.is_empty() {
                 return vec![];
             }
-            let used: Vec<String> = regs.iter().filter(|d| fw.model.pairs.keys().any(|(a, b)| a[2..] == **d && a.starts_with("n:") || b[2..] == **d && b.starts_with("n:"))).cloned().collect();
+            // ("in some pair" by spelling: a denom spelled like a cw20 address counts when that token is paired,
+            // so that re-registering it meets pairs that hold the same spelling as a different asset)
+            let used: Vec<String> = regs.iter().filter(|d| fw.model.pairs.keys().any(|(a, b)| a[2..] == **d || b[2..] == **d)).cloned().collect();
             let d = if !used.is_empty() && o.chance(4, 5) { used[o.idx(used.len())].clone() } else { regs[o.idx(regs.len())].clone() };
             vec![RegOp::Register { denom: d, decimals: o.below(19) as u8 }]
         }
